@@ -1,5 +1,6 @@
 import TpmVerif.Base.Trace
 import TpmVerif.Model.Tpm12Core
+import TpmVerif.Spec.Tpm12Pcr
 /-! Correspondence checker for C20 traces: replays every traced operation (TPM_Extend, TPM_PCRRead, TPM_PCR_Reset,
     TPM_SHA1Start/Update/Complete/CompleteExtend, TPM_IO_Hash_*, TPM_IO_TpmEstablished_*, Startup, power cycle,
     suspend/resume) through `Model.Tpm12.Core.step` with the executable SHA-1 and reports every return code and
@@ -93,6 +94,17 @@ def step (c : CS) (l : Line) : CS :=
         let c := branch c (opBranch l obs.rc)
         let name := l.str "name"
         let c := if l.nat "ret" ≠ 0 then mism c s!"{name}: TPMLIB_Process returned {l.nat "ret"}" else c
+        -- model-free: the observed decisions against the hand-written PC Client table (Spec.Tpm12Pcr)
+        let loc := l.nat "loc"
+        let c := if name = "pcrreset" && l.nat "rc" = 0 then
+            match (selected (l.bytes "sel")).find? (fun i => !Spec.Tpm12Pcr.mayReset i loc) with
+            | some i => mism c s!"SPEC[pcr-reset-policy] TPM_PCR_Reset from locality {loc} succeeded although PCR {i} must not be reset from there"
+            | none => c
+          else c
+        let c := if (name = "extend" || name = "sha1completeextend") && l.nat "rc" = 0 && !Spec.Tpm12Pcr.mayExtend (l.nat "pcr") loc then
+            mism c s!"SPEC[pcr-extend-policy] extend of PCR {l.nat "pcr"} from locality {loc} succeeded although the PC Client table forbids it" else c
+        let c := if name = "extend" && l.nat "rc" = TPM_BAD_LOCALITY && l.nat "pcr" < 16 then
+            mism c s!"SPEC[pcr-extend-policy] extend of static PCR {l.nat "pcr"} refused for locality {loc}" else c
         if name = "other" then c else
         let c := if l.nat "rc" ≠ obs.rc then mism c s!"{sigOf name}{name}: rc model={obs.rc} impl={l.nat "rc"}" else c
         if l.nat "rc" = 0 && obs.rc = 0 && l.bytes "out" ≠ obs.out then
